@@ -16,7 +16,8 @@ import time
 VERIF = os.path.dirname(os.path.dirname(os.path.abspath(__file__)))
 sys.path.insert(0, VERIF)
 
-CONTRACT_MODULES = ["deps", "stats_tally", "stats_weighted"]
+CONTRACT_MODULES = ["deps", "stats_tally", "stats_weighted", "pubsub", "eventlist", "streams", "parameters", "simulator", "distributions",
+                    "simstats", "reinit", "quantity"]      # load order (later modules extend contracts of earlier ones); others alphabetically
 
 _cache = {}
 
